@@ -111,7 +111,41 @@ func maxCellsRule(cov []s2.CellID, cfg Config) string {
 }
 
 type tally struct {
-	in, out, near, nearIn, lenient, fuzz int
+	in, out, near, nearIn, lenient, fuzz, gaps, gapIn int
+}
+
+// gapCells returns cells next to the covering that the covering does not
+// touch: the edge neighbours (at the cell's own level) of up to 5 evenly spaced
+// covering cells, at most ~14 of them.
+func gapCells(cov []s2.CellID) []s2.CellID {
+	if len(cov) == 0 {
+		return nil
+	}
+	step := (len(cov) + 4) / 5
+	seen := map[s2.CellID]bool{}
+	var out []s2.CellID
+	for i := 0; i < len(cov) && len(out) < 14; i += step {
+		if !cov[i].IsValid() {
+			continue
+		}
+		for _, g := range cov[i].EdgeNeighbors() {
+			if seen[g] {
+				continue
+			}
+			seen[g] = true
+			touches := false
+			for _, c := range cov {
+				if c.RangeMin() <= g.RangeMax() && g.RangeMin() <= c.RangeMax() {
+					touches = true
+					break
+				}
+			}
+			if !touches {
+				out = append(out, g)
+			}
+		}
+	}
+	return out
 }
 
 // judgeMembership checks every probe: oracle vs library ContainsPoint, and
@@ -172,6 +206,38 @@ func judgeMembership(o *ev.Outcome, spec Spec, region s2.Region, probes []Probe,
 			}
 		}
 	}
+	// gap-directed probes: points of cells just outside the covering that the
+	// oracle (not the library) puts in the region
+	feats := spec.Features()
+	if len(feats) > 16 {
+		feats = feats[:16]
+	}
+	for _, name := range order {
+		for _, g := range gapCells(covs[name]) {
+			tl.gaps++
+			cell := s2.CellFromCellID(g)
+			for _, p := range directedPoints(spec, cell, feats) {
+				m := spec.Member(p)
+				if m != mIn && m != mNear {
+					continue
+				}
+				tol := 4 * eps
+				if m == mNear {
+					tol = tolUV
+				} else {
+					tl.gapIn++
+				}
+				if covered(covs[name], p, tol) == 0 {
+					o.Err = fmt.Sprintf("%s (%d cells) does not contain the region point %v (verdict %d) found in the uncovered neighbouring cell %v (level %d), region %s/%s", name, len(covs[name]), p, m, g, g.Level(), spec.Kind, spec.Family)
+					o.Finding = fmt.Sprintf("uncovered-%s-%s", name, spec.Kind)
+					if rectEdgeLngDefectAt(spec, p) {
+						o.Finding = findingRectEdgeLng
+					}
+					return tl, false
+				}
+			}
+		}
+	}
 	return tl, true
 }
 
@@ -217,7 +283,8 @@ func checkCoveringContains(c covCase) (o ev.Outcome) {
 	cov := covs["Covering"]
 	o.NonTrivial = len(cov) >= 2 && tl.in+tl.near >= 1 && (facesOf(cov) >= 2 || tl.nearIn+tl.near >= 1)
 	o.Counts = map[string]int{"probes_in": tl.in, "probes_out": tl.out, "probes_near_boundary": tl.near,
-		"covered_only_as_closed_cell": tl.lenient, "lib_member_near_boundary_outside_strict_covering": tl.fuzz, "cells": len(cov)}
+		"covered_only_as_closed_cell": tl.lenient, "lib_member_near_boundary_outside_strict_covering": tl.fuzz, "cells": len(cov),
+		"gap_cells_probed": tl.gaps, "gap_points_in_region_but_covered_elsewhere": tl.gapIn}
 	return o
 }
 
